@@ -3,6 +3,7 @@ from __future__ import annotations
 
 import builtins
 import io
+import itertools
 import posixpath
 import re
 import struct
@@ -522,6 +523,11 @@ def call(f, *args, **kwargs):
         args = (list(args[0]),) + args[1:]      # materialise generators/deques so symbolic parts are seen
     if f is bytearray:
         return SymByteArray(*args)
+    if getattr(f, "__self__", None) is itertools.chain and getattr(f, "__name__", "") == "from_iterable" and len(args) == 1:
+        # chain.from_iterable only iterates: materialise (the items may be symbolic, which a C-level receiver hides)
+        return iter([x for it in args[0] for x in it])
+    if f is itertools.chain:
+        return iter([x for it in args for x in it])
     if f is builtins.map and len(args) >= 2 and not kwargs:
         # materialise the iterables (they may be iterators produced by another map()) so symbolic items are seen
         its = [a if isinstance(a, (list, tuple)) else list(a) for a in args[1:]]
